@@ -1558,6 +1558,10 @@ M('C02', 'original defect: add_leg indexes the extended tensor with rank entries
   "        slices = [slice(None, None)] * extended.rank  # (one more than self.rank: `axis` may be the last)", "        slices = [slice(None, None)] * self.rank",
   'INDEX-rank')
 
+M('C02', 'original defect: speigs declares the eigenvectors with the dtype of the input', NPC,
+  "            U = zeros([a.legs[0]], dtype=V_flat.dtype, qtotal=charge_sector)  # complex for non-hermitian `a`", "            U = zeros([a.legs[0]], dtype=a.dtype, qtotal=charge_sector)",
+  'DTYPE-wrapped-block')
+
 # ---------------------------------------------------------------- C16 / C19
 M('C16', 'GMRES restart: relative residual norm used for normalisation (round-3 seed b)', KRY,
   """        self.total_error.append([npc.norm(self.rs[-1]) / self.b_norm])
